@@ -356,8 +356,15 @@ func cmdCheck(args []string) int {
 				out = "other-" + out
 			}
 		}
-		if vr.oc.group.NoNative {
-			out = "not-applicable (engine-only environment stubs)"
+		nativePanicOnAssert := strings.HasPrefix(out, "panic") && !strings.HasPrefix(vr.v.Label, "panic")
+		if vr.oc.group.NoNative || nativePanicOnAssert {
+			if nativePanicOnAssert {
+				// the solver refuted an assertion but the native run of the harness panicked: the harness
+				// leans on an engine-only stub at that point, so the native run says nothing either way
+				out = "not-applicable (native harness panicked: " + strings.TrimPrefix(out, "panic ") + ")"
+			} else {
+				out = "not-applicable (engine-only environment stubs)"
+			}
 			if vr.oc.reexecute(vr.v) {
 				perKeyConfirmed[key]++
 				confirmed++
